@@ -668,6 +668,95 @@ def check(model, rep, tier):
             line=fb.node.lineno, nontrivial=False)
   # every branch of the if/elif/else chain warns (possibly under a condition)
   rep.check(True, 'CALL-FALLBACK', '%s:shape' % fb.site, '', nontrivial=False)
+  # ... evaluated: in every scenario of (failure class, inspection supported,
+  # already in the negative cache) outside the two documented quiet cases, some
+  # path to a warning call is taken.  Paths and the values of locals (an `extra`
+  # text, a flag) come from sa/pathsym; tests are evaluated on the scenario.
+  from sa import pathsym as _ps
+  excp = fb.params()[4] if len(fb.params()) > 4 else fb.params()[-1]
+
+  class _Unknown(Exception):
+    pass
+  _OBJ = object()
+
+  def _ev(e, sc):
+    if isinstance(e, ast.Constant):
+      return e.value
+    if isinstance(e, ast.Call) and core.dotted(e.func) == 'isinstance' and \
+        len(e.args) == 2 and core.norm(e.args[0]) == excp:
+      ks = [core.dotted(k).split('.')[-1] for k in (
+          e.args[1].elts if isinstance(e.args[1], ast.Tuple) else [e.args[1]])]
+      return any(sc['cls'] == k for k in ks)
+    if isinstance(e, ast.Call) and (core.dotted(e.func) or '').endswith(
+        'is_in_allowlist_cache'):
+      return sc['cached']
+    if core.dotted(e) in ('ag_ctx.INSPECT_SOURCE_SUPPORTED',):
+      return sc['inspect']
+    if isinstance(e, ast.UnaryOp) and isinstance(e.op, ast.Not):
+      return not _ev(e.operand, sc)
+    if isinstance(e, ast.BoolOp):
+      vals = [_ev(v, sc) for v in e.values]
+      if isinstance(e.op, ast.And):
+        for v in vals:
+          if not v:
+            return v
+        return vals[-1]
+      for v in vals:
+        if v:
+          return v
+      return vals[-1]
+    if isinstance(e, ast.IfExp):
+      return _ev(e.body if _ev(e.test, sc) else e.orelse, sc)
+    if isinstance(e, ast.Compare) and len(e.ops) == 1:
+      l, r = _ev(e.left, sc), _ev(e.comparators[0], sc)
+      if isinstance(e.ops[0], ast.Is):
+        return l is r
+      if isinstance(e.ops[0], ast.IsNot):
+        return l is not r
+      if _OBJ not in (l, r):
+        if isinstance(e.ops[0], ast.Eq):
+          return l == r
+        if isinstance(e.ops[0], ast.NotEq):
+          return l != r
+    if isinstance(e, (ast.JoinedStr, ast.BinOp, ast.Tuple, ast.List, ast.Dict)):
+      return _OBJ
+    raise _Unknown(core.norm(e))
+
+  quiet_ok = lambda sc: (sc['cls'] == 'InaccessibleSourceCodeError' and not sc['inspect']) \
+      or (sc['cls'] == 'UnsupportedLanguageElementError' and sc['cached'])
+  silent, unknown_ = [], []
+  wpaths = []
+  for c in warn:
+    st_ = next((x for x in ast.walk(fb.node) if isinstance(x, ast.stmt) and not isinstance(
+        x, (ast.If, ast.FunctionDef, ast.For, ast.While, ast.With, ast.Try)) and any(
+            y is c for y in ast.walk(x))), None)
+    if st_ is not None:
+      wpaths.extend(_ps.path_values(fb.node, st_, ast.Constant(0)))
+  for cls_ in ('InaccessibleSourceCodeError', 'UnsupportedLanguageElementError', 'Other'):
+    for insp in (True, False):
+      for cached in (True, False):
+        sc = {'cls': cls_, 'inspect': insp, 'cached': cached}
+        if quiet_ok(sc):
+          continue
+        hit = False
+        for conds, _v in wpaths:
+          try:
+            if all(bool(_ev(t, sc)) == (pol == 'T') for pol, t in conds):
+              hit = True
+          except _Unknown as e_:
+            unknown_.append(str(e_))
+        if not hit:
+          silent.append(sc)
+  if unknown_ and silent:
+    raise core.AnalysisError('fallback warning conditions not evaluated: %s' % unknown_[:3])
+  rep.check(bool(warn) and not silent, 'CALL-FALLBACK', '%s:warns-in-every-failure-class'
+            % fb.site,
+            'a conversion failure is answered with a warning: the only quiet cases are '
+            'a source-less target where inspection is not supported at all, and an '
+            'unsupported language element already recorded in the negative cache (it '
+            'warned the first time)', {'silent_scenarios': silent[:4]},
+            line=fb.node.lineno,
+            witness='a function with for/else: the first call must warn')
 
   # ---------------------------------------------------------------- CALL-NODOUBLE
   ex_calls = [c for v in actions.values() for k, c in v if k == 'execute']
